@@ -100,6 +100,8 @@ struct Runner<'a> {
     /// paths that were ever given to mount (for pseudo-inode comparisons)
     paths: Vec<String>,
     orphaned: bool,
+    /// remove_pseudo_root: some umount evicted a pseudo directory
+    evicted: bool,
     walks: u64,
     /// the last event that left `initialized` false although options were negotiated
     uninit_cause: &'static str,
@@ -134,6 +136,7 @@ impl<'a> Runner<'a> {
             panicked: false,
             paths: vec![],
             orphaned: false,
+            evicted: false,
             walks: 0,
             uninit_cause: "after-destroy",
         }
@@ -296,6 +299,7 @@ impl<'a> Runner<'a> {
             self.out.stat("umount:ok");
             // with remove_pseudo_root an evicted directory may leave mounts below it unreachable
             if self.w.cfg.rm {
+                self.evicted = true;
                 let lost = self.w.live.values().any(|l| self.w.vfs.get_root_pseudofs().path_walk(&l.path).ok().flatten() != Some(l.pino));
                 if lost {
                     self.orphaned = true;
@@ -671,7 +675,9 @@ impl<'a> Runner<'a> {
         self.out.stat(&format!("restore:{}", mode));
         if so.res != "ok" {
             self.out.stat("restore:failed");
-            let key = if self.orphaned { "C19:restore-fails:evicted-parent".to_string() } else { format!("C19:restore-fails:{}", so.res) };
+            // with remove_pseudo_root the only way a snapshot becomes unloadable is an evicted
+            // directory that still had children (mounts or plain pseudo directories)
+            let key = if self.orphaned || self.evicted { "C19:restore-fails:evicted-parent".to_string() } else { format!("C19:restore-fails:{}", so.res) };
             self.hit("C19", key, format!("save + restore failed with `{}`", so.res));
             return;
         }
@@ -714,7 +720,14 @@ impl<'a> Runner<'a> {
         for p in self.paths.iter() {
             let (x, y) = (a.vfs.get_root_pseudofs().path_walk(p).ok(), self.w.vfs.get_root_pseudofs().path_walk(p).ok());
             if x != y {
-                hits.push(("C19:pseudo-ino-differ".into(), format!("path `{}` resolves to pseudo inode {:?} on the original and {:?} on the restored instance", p, x, y)));
+                if self.evicted {
+                    // re-attaching a mount whose recorded path runs through an evicted directory
+                    // (`/a/../b` after `/a` was evicted) creates that directory again
+                    hits.push(("C19:rm-evicted:reattach-recreates-dir".into(), format!("path `{}` resolves to pseudo inode {:?} on the original and {:?} on the restored instance", p, x, y)));
+                    diverged = true;
+                } else {
+                    hits.push(("C19:pseudo-ino-differ".into(), format!("path `{}` resolves to pseudo inode {:?} on the original and {:?} on the restored instance", p, x, y)));
+                }
             }
         }
         // format version 1 carries no per-mount mappings: translation differs by design
